@@ -32,3 +32,6 @@ def run(ctx):
     H.r17_7_set_value_marks(ctx)
     E.r17_9_mark_provenance(ctx)
     H.r16_1_purity(ctx, 'R17.8', roots=['yatiml.recognizer:Recognizer.recognize'], what='recognition (error messages are built per node, nothing is remembered between nodes)')
+    from . import round3 as R3
+    R3.r17_10_source_text_untouched(ctx)
+    R3.r12_7_source_independence(ctx, 'R17.11')
